@@ -1,9 +1,11 @@
 //! Per-property recording commands, one module per property (registered here).
 use crate::Args;
+pub mod c16;
 pub mod c17;
 
 pub fn dispatch(_cmd: &str, _a: &Args) -> bool {
     match _cmd {
+        "c16" => c16::run(_a),
         "c17" => c17::run(_a),
         _ => return false,
     }
